@@ -18,18 +18,54 @@ SM_OP, SM_LOWER, SM_COPY, SM_IORFROM, SM_ISUBFROM, SM_NEW = range(6)
 CLSNAMES = ['CaseInsensitiveDict', 'OrderedCaseInsensitiveDict', 'CaseInsensitiveDefaultDict']
 
 
+# Python values <-> the model's integer values.  The model only carries values around; the implementation is
+# called with the real objects, so that falsy values and None (as values and as EXPLICIT defaults) are exercised.
+# On the wire "no default given" is [] and "default None" is [NONE].
+VBASE = -(10 ** 15)
+NONE, FALSE, EMPTYSTR, EMPTYLIST, VUNKNOWN = VBASE - 1, VBASE - 2, VBASE - 3, VBASE - 4, VBASE - 99
+FALSY = [NONE, 0, EMPTYSTR, EMPTYLIST, FALSE]
+VNAMES = {NONE: 'None', FALSE: 'False', EMPTYSTR: "''", EMPTYLIST: '[]'}
+
+def vdec(code):
+    if code == NONE: return None
+    if code == FALSE: return False
+    if code == EMPTYSTR: return ''
+    if code == EMPTYLIST: return []
+    return code
+
+def vcode(x):
+    if x is None: return NONE
+    if x is False: return FALSE
+    if isinstance(x, bool): return VUNKNOWN
+    if isinstance(x, int): return x
+    if x == '' and isinstance(x, str): return EMPTYSTR
+    if x == [] and isinstance(x, list): return EMPTYLIST
+    return VUNKNOWN
+
+def vshow(code):
+    return VNAMES.get(code, repr(code))
+
+def enc_res(t, x):
+    """result of operation kind t -> the model's `ret` encoding (by operation kind, so that a stored None and
+    'no result' are not confused)"""
+    if t in (O_GET, O_GETD, O_POP, O_SETDEFAULT):
+        return [1, vcode(x)]
+    if t == O_IN:
+        return [2, int(x)] if isinstance(x, bool) else [9, norm(repr(x))]
+    if t == O_POPITEM:
+        if isinstance(x, tuple) and len(x) == 2 and isinstance(x[0], str):
+            return [4, norm(x[0]), vcode(x[1])]
+        return [9, norm(repr(x))]
+    return [0] if x is None else [9, norm(repr(x))]
+
 def enc_val(x):
-    """return value of an operation -> the model's `ret` encoding"""
+    """return value of a set operation -> the model's `sret` encoding"""
     if x is None:
         return [0]
     if isinstance(x, bool):
         return [2, int(x)]
-    if isinstance(x, int):
-        return [1, x]
     if isinstance(x, str):
         return [3, norm(x)]
-    if isinstance(x, tuple) and len(x) == 2 and isinstance(x[0], str) and isinstance(x[1], int) and not isinstance(x[1], bool):
-        return [4, norm(x[0]), x[1]]
     return [9, norm(repr(x))]
 
 
@@ -50,9 +86,9 @@ def parse_repr_text(s):
             m = re.match(r'^[A-Za-z_]+\((.*)\)$', s, flags=re.S)
             v = ast.literal_eval(m.group(1))
             if isinstance(v, dict):
-                r = [0, [[norm(k), x] for k, x in v.items()]]
+                r = [0, [[norm(k), vcode(x)] for k, x in v.items()]]
             else:
-                r = [0, [[norm(e[0]), e[1]] if isinstance(e, tuple) else norm(e) for e in list(v)]]
+                r = [0, [[norm(e[0]), vcode(e[1])] if isinstance(e, tuple) else norm(e) for e in list(v)]]
         except Exception:
             r = [9, norm(s)]
         if len(_PARSE_CACHE) < 200000:
@@ -62,15 +98,15 @@ def parse_repr_text(s):
 
 def observe_dict(c, probes):
     it = call(lambda: [norm(k) for k in c])
-    items = call(lambda: [[norm(k), v] for k, v in c.items()])
+    items = call(lambda: [[norm(k), vcode(v)] for k, v in c.items()])
     ln = call(lambda: len(c))
     rp = call(lambda: repr(c))
     if rp[0] == 0:
         rp = parse_repr_text(rp[1])
     cont = [int(bool(call(lambda: p in c)[1:] == [True])) for p in probes]
-    look = [call(lambda: c[p]) for p in probes]
+    look = [call(lambda: vcode(c[p])) for p in probes]
     # extra (oracle only, removed by canon): keys(), values(), bool()
-    extra = [call(lambda: [norm(k) for k in c.keys()]), call(lambda: list(c.values())), call(lambda: int(bool(c)))]
+    extra = [call(lambda: [norm(k) for k in c.keys()]), call(lambda: [vcode(v) for v in c.values()]), call(lambda: int(bool(c)))]
     return [it[1] if it[0] == 0 else [[-1]], items, ln[1] if ln[0] == 0 else -1, rp, cont, look, extra]
 
 
@@ -84,7 +120,7 @@ def apply_op(c, op):
     t = op[0]
     k = S(op[1]) if len(op) > 1 and t != O_UPDATE else None
     if t == O_SET:
-        r = call(c.__setitem__, k, op[2])
+        r = call(c.__setitem__, k, vdec(op[2]))
     elif t == O_GET:
         r = call(c.__getitem__, k)
     elif t == O_DEL:
@@ -92,15 +128,15 @@ def apply_op(c, op):
     elif t == O_IN:
         r = call(c.__contains__, k)
     elif t == O_GETD:
-        r = call(c.get, k, *op[2])
+        r = call(c.get, k, *[vdec(x) for x in op[2]])
     elif t == O_POP:
-        r = call(c.pop, k, *op[2])
+        r = call(c.pop, k, *[vdec(x) for x in op[2]])
     elif t == O_POPITEM:
         r = call(c.popitem)
     elif t == O_SETDEFAULT:
-        r = call(c.setdefault, k, op[2])
+        r = call(c.setdefault, k, vdec(op[2]))
     elif t == O_UPDATE:
-        pairs = [(S(a), b) for a, b in op[1]]
+        pairs = [(S(a), vdec(b)) for a, b in op[1]]
         if len(pairs) % 2 == 0 and len(set(a for a, _ in pairs)) == len(pairs):
             pairs = dict(pairs)      # update(mapping) iterates the same pairs
         r = call(c.update, pairs)
@@ -112,7 +148,7 @@ def apply_op(c, op):
             c = r[1]
             r = [0, None]
     if r[0] == 0:
-        r = [0, enc_val(r[1])]
+        r = [0, enc_res(t if t != O_LOWER else O_CLEAR, r[1])]
     return c, r
 
 
@@ -122,9 +158,9 @@ def impl_dict(arg):
     probes = [S(p) for p in probes]
     try:
         if cls == DEFAULT:
-            c = CLS[2](lambda: dflt)
+            c = CLS[2](lambda: vdec(dflt))
         else:
-            c = CLS[cls]([(S(k), v) for k, v in init])
+            c = CLS[cls]([(S(k), vdec(v)) for k, v in init])
     except Exception:
         return [[[2], []]]
     out = [[[0, [0]], observe_dict(c, probes) if obs_from <= 0 else []]]
@@ -162,10 +198,10 @@ def impl_multi(arg):
             elif t == M_UPDATEFROM:
                 r = call(cs[op[1]].update, cs[op[2]])
             elif t == M_NEW:
-                r = call(CLS[op[1]], [(S(k), v) for k, v in op[2]])
+                r = call(CLS[op[1]], [(S(k), vdec(v)) for k, v in op[2]])
             else:
                 d0 = op[1]
-                r = call(CLS[2], lambda d0=d0: d0)
+                r = call(CLS[2], lambda d0=d0: vdec(d0))
             if r[0] == 0:
                 if t != M_UPDATEFROM:
                     cs.append(r[1])
@@ -271,21 +307,89 @@ def impl_multiset(arg):
     return [0, out]
 
 
+def op_keys(op):
+    t = op[0]
+    if t == O_UPDATE:
+        return [S(a) for a, _ in op[1]]
+    return [S(op[1])] if len(op) > 1 else []
+
+def sop_keys(op):
+    t = op[0]
+    if t in (S_IOR, S_ISUB):
+        return [S(x) for x in op[1]]
+    return [S(op[1])] if len(op) > 1 else []
+
+def case_keys(fn, arg):
+    """every key string occurring in a case"""
+    ks = []
+    if fn == 1:
+        ks += [S(k) for k, _ in arg[2]] + [S(p) for p in arg[4]]
+        for op in arg[3]:
+            ks += op_keys(op)
+    elif fn == 2:
+        ks += [S(k) for k in arg[0]] + [S(p) for p in arg[2]]
+        for op in arg[1]:
+            ks += sop_keys(op)
+    elif fn == 3:
+        ks += [S(p) for p in arg[1]]
+        for op in arg[0]:
+            if op[0] == M_OP:
+                ks += op_keys(op[2])
+            elif op[0] == M_NEW:
+                ks += [S(k) for k, _ in op[2]]
+    else:
+        ks += [S(p) for p in arg[1]]
+        for op in arg[0]:
+            if op[0] == SM_OP:
+                ks += sop_keys(op[2])
+            elif op[0] == SM_NEW:
+                ks += [S(k) for k in op[1]]
+    return ks
+
+def lower_table(keys):
+    """key -> key.lower() as computed by Python, closed under lower; ASCII keys are left to the model's own mapping"""
+    tbl = {}
+    todo = list(keys)
+    while todo:
+        k = todo.pop()
+        if k in tbl or k.isascii():
+            continue
+        tbl[k] = k.lower()
+        todo.append(tbl[k])
+    return [[norm(k), norm(v)] for k, v in sorted(tbl.items())]
+
+def model_op(op):
+    # Mapping.get(key, default=None): get(k) IS get(k, None)
+    return [O_GETD, op[1], [NONE]] if op[0] == O_GETD and not op[2] else op
+
 def model_arg(fn, arg):
-    """MutableSet.pop takes `next(iter(self))`, i.e. hash order: the model is told which element came
-    out on the implementation (and checks that it is a possible one)."""
-    if fn == 2 and any(op[0] == S_POP for op in arg[1]):
-        out = impl_set(arg)[1]
-        ops = []
-        for i, op in enumerate(arg[1]):
-            if op[0] == S_POP:
-                r = out[i + 1][0] if i + 1 < len(out) else [2]
-                ops.append([S_POP, r[1][1] if r[0] == 0 and r[1][0] == 3 else []])
-            else:
-                ops.append(op)
-        return [arg[0], ops, arg[2], arg[3]]
-    if fn == 4 and any(op[0] == SM_OP and op[2][0] == S_POP for op in arg[0]):
-        out = impl_multiset(arg)[1]
+    """what the model is given in addition to / instead of the case:
+    * the table key -> str.lower(key) for the non-ASCII keys of the case (the model's `lower` beyond ASCII);
+    * get(k) as get(k, None);
+    * MutableSet.pop takes `next(iter(self))`, i.e. hash order: the model is told which element came out on the
+      implementation (and checks that it is a possible one)."""
+    tbl = lower_table(case_keys(fn, arg))
+    if fn == 1:
+        return [arg[0], arg[1], arg[2], [model_op(o) for o in arg[3]], arg[4], arg[5], tbl]
+    if fn == 3:
+        return [[[M_OP, o[1], model_op(o[2])] if o[0] == M_OP else o for o in arg[0]], arg[1], arg[2], tbl]
+    if fn == 2:
+        ops = arg[1]
+        if any(op[0] == S_POP for op in ops):
+            out = impl_set(arg)[1]
+            ops = []
+            for i, op in enumerate(arg[1]):
+                if op[0] == S_POP:
+                    r = out[i + 1][0] if i + 1 < len(out) else [2]
+                    ops.append([S_POP, r[1][1] if r[0] == 0 and r[1][0] == 3 else []])
+                else:
+                    ops.append(op)
+            tbl = lower_table(case_keys(fn, arg) + [S(o[1]) for o in ops if o[0] == S_POP])
+        return [arg[0], ops, arg[2], arg[3], tbl]
+    ops = arg[0]
+    if any(op[0] == SM_OP and op[2][0] == S_POP for op in ops):
+        res = impl_multiset(arg)
+        out = res[1] if res[0] == 0 else []
         ops = []
         for i, op in enumerate(arg[0]):
             if op[0] == SM_OP and op[2][0] == S_POP:
@@ -293,8 +397,8 @@ def model_arg(fn, arg):
                 ops.append([SM_OP, op[1], [S_POP, r[1][1] if r[0] == 0 and r[1][0] == 3 else []]])
             else:
                 ops.append(op)
-        return [ops, arg[1], arg[2]]
-    return arg
+        tbl = lower_table(case_keys(fn, arg) + [S(o[2][1]) for o in ops if o[0] == SM_OP and o[2][0] == S_POP])
+    return [ops, arg[1], arg[2], tbl]
 
 
 OPS_SCHEMA = ('L', 'X')
@@ -401,7 +505,7 @@ def ref_apply(ref, cls, dflt, op, r, name):
     elif t == O_IN:
         exp = [0, [2, int(row is not None)]]
     elif t == O_GETD:
-        d = [1, op[2][0]] if op[2] else [0]
+        d = [1, op[2][0]] if op[2] else [1, NONE]      # get(k) is get(k, None)
         if row:
             exp = [0, [1, row[2]]]
         elif cls == DEFAULT:
@@ -480,7 +584,7 @@ def oracle_multi(arg, out):
         name = 'step %d %s' % (i + 1, describe_mop(op))
         idx = [op[1]] if t in (M_OP, M_LOWER, M_COPY, M_COPYITEMS) else ([op[1], op[2]] if t == M_UPDATEFROM else [])
         if any(j >= len(refs) for j in idx):
-            return '%s: names a container that does not exist' % name
+            return None     # ill-formed case (only produced by shrinking): not a statement about the property
         if t == M_OP:
             ref, cls, dflt = refs[op[1]]
             m = ref_apply(ref, cls, dflt, op[2], r, name)
@@ -666,12 +770,12 @@ def oracle(fn, arg, out):
 def describe_op(op):
     t = op[0]
     if t == O_UPDATE:
-        return 'update(%r)' % [(S(a), b) for a, b in op[1]]
+        return 'update([%s])' % ', '.join('(%r, %s)' % (S(a), vshow(b)) for a, b in op[1])
     a = [repr(S(op[1]))] if len(op) > 1 else []
     if t in (O_SET, O_SETDEFAULT):
-        a.append(repr(op[2]))
+        a.append(vshow(op[2]))
     if t in (O_GETD, O_POP) and op[2]:
-        a.append(repr(op[2][0]))
+        a.append(vshow(op[2][0]))
     return '%s(%s)' % (OPNAMES[t], ', '.join(a))
 
 
@@ -780,7 +884,10 @@ def set_ops(keys):
     return ops
 
 
-RICH = 'abcABCxyzXYZ019_-+.:/ €°→'   # repr-safe, and caseless outside ASCII letters
+RICH = 'abcABCxyzXYZ019_-+.:/ €°→ßςΣσſﬁİK'   # non-ASCII letters included: the model gets str.lower of every key as a table
+# keys on which lower() and casefold() / upper().lower() differ, and groups of spellings of one key
+UNI_SPELL = [('Maß', 'maß'), ('K', 'k')]
+UNI_KEYS = ['Maß', 'maß', 'MAß', 'MASS', 'K', 'k', 'K', 'ς', 'Σ', 'σ', 'ſ', 's', 'ﬁ', 'İ', 'i̇']
 
 def rich_key(rng, pool):
     if pool and rng.random() < 0.7:
@@ -795,7 +902,7 @@ def rich_key(rng, pool):
     return k
 
 def rich_val(rng):
-    return rng.choice([0, 1, 2, 3, -1, 7, 10, 42, -305, 2 ** 40, rng.randint(-1000, 1000)])
+    return rng.choice([0, 1, 2, 3, -1, 7, 10, 42, -305, 2 ** 40, rng.randint(-1000, 1000), NONE, NONE, FALSE, EMPTYSTR, EMPTYLIST])
 
 def random_op(rng, pool):
     t = rng.choice([O_SET] * 6 + [O_GET, O_DEL, O_DEL, O_DEL, O_IN, O_GETD, O_POP, O_POP, O_POPITEM, O_SETDEFAULT, O_SETDEFAULT, O_UPDATE, O_LOWER] + ([O_CLEAR] if rng.random() < 0.2 else []))
@@ -828,7 +935,7 @@ def random_multi_history(rng, maxlen):
             if t == M_NEW:
                 ops.append([t, rng.choice([PLAIN, ORDERED]), [[rich_key(rng, pool), rich_val(rng)] for _ in range(rng.choice([0, 1, 2, 4]))]])
             elif t == M_NEWDEFAULT:
-                ops.append([t, rng.choice([0, 5])])
+                ops.append([t, rng.choice([0, 5, NONE])])
             elif t == M_LOWER:
                 ops.append([t, rng.randrange(n)])
             else:
@@ -861,7 +968,7 @@ def random_dict_history(rng, maxlen):
     init = [] if cls == DEFAULT else [[rich_key(rng, pool), rich_val(rng)] for _ in range(rng.choice([0, 0, 1, 2, 4]))]
     ops = [random_op(rng, pool) for _ in range(rng.randint(1, maxlen))]
     probes = [rich_key(rng, pool) for _ in range(4)] + ['zz']
-    return [cls, rng.choice([0, 0, 5]), init, ops, probes, 0]
+    return [cls, rng.choice([0, 0, 5, NONE, EMPTYLIST]), init, ops, probes, 0]
 
 def random_set_history(rng, maxlen):
     pool = []
@@ -910,7 +1017,7 @@ def gen(tier, rng):
     for spell, vals in scopes:
         keys = [s for p in spell for s in p]
         probes = keys + ['z']
-        ops = dict_ops(keys, vals if len(vals) > 1 else [1, 2], [7])
+        ops = dict_ops(keys, (vals if len(vals) > 1 else [1, 2]) + [NONE], [7, NONE, 0])
         for st in states(spell, vals):
             path = [[O_SET, k, v] for k, v in st]
             for cls in (PLAIN, ORDERED, DEFAULT):
@@ -922,14 +1029,14 @@ def gen(tier, rng):
                         yield ('exhaustive_state_x_op', 1, [cls, 0, [[k, v] for k, v in st], [op], probes, 0])
     # (b) exhaustive: every history of bounded length over a reduced operation alphabet
     small = [[O_SET, 'a', 1], [O_SET, 'A', 2], [O_SET, 'b', 1], [O_SET, 'B', 2], [O_DEL, 'a'], [O_DEL, 'B'],
-             [O_POP, 'A', []], [O_POP, 'b', [7]], [O_POPITEM], [O_SETDEFAULT, 'A', 3], [O_SETDEFAULT, 'b', 3],
-             [O_UPDATE, [['B', 4], ['a', 4]]], [O_CLEAR], [O_LOWER], [O_GETD, 'B', [7]]]
+             [O_POP, 'A', []], [O_POP, 'b', [NONE]], [O_POPITEM], [O_SETDEFAULT, 'A', 0], [O_SETDEFAULT, 'b', NONE],
+             [O_UPDATE, [['B', 4], ['a', NONE]]], [O_CLEAR], [O_LOWER], [O_GETD, 'B', [NONE]]]
     for n in range(1, 4):
         for seq in itertools.product(small, repeat=n):
             for cls in ((ORDERED, DEFAULT) if n == 3 else (PLAIN, ORDERED, DEFAULT)):
                 yield ('exhaustive_histories', 1, [cls, 0, [], list(seq), ['a', 'A', 'b', 'B', 'z'], n - 1])
     if not quick:
-        small4 = [o for o in small if o not in ([O_SET, 'b', 1], [O_POP, 'b', [7]], [O_SETDEFAULT, 'b', 3], [O_GETD, 'B', [7]])]
+        small4 = [o for o in small if o not in ([O_SET, 'b', 1], [O_POP, 'b', [NONE]], [O_SETDEFAULT, 'b', NONE], [O_GETD, 'B', [NONE]])]
         for seq in itertools.product(small4, repeat=4):
             for cls in (ORDERED, DEFAULT):
                 yield ('exhaustive_histories', 1, [cls, 0, [], list(seq), ['a', 'A', 'b', 'B', 'z'], 3])
@@ -961,7 +1068,7 @@ def gen(tier, rng):
     #     operation on either of the two; all live containers observed after the fork and after the operation
     mprobes = ['a', 'A', 'b', 'B', 'c', 'z']
     mut_ops = [[O_SET, 'a', 5], [O_SET, 'A', 6], [O_SET, 'B', 7], [O_SET, 'c', 8], [O_DEL, 'a'], [O_DEL, 'B'], [O_POP, 'A', []],
-               [O_POP, 'b', [9]], [O_POPITEM], [O_SETDEFAULT, 'c', 3], [O_SETDEFAULT, 'A', 3], [O_UPDATE, [['b', 4], ['C', 4]]],
+               [O_POP, 'b', [NONE]], [O_POPITEM], [O_SETDEFAULT, 'c', NONE], [O_SETDEFAULT, 'A', 0], [O_UPDATE, [['b', 4], ['C', NONE]]],
                [O_CLEAR], [O_LOWER]]
     for st in states([('a', 'A'), ('b', 'B')], [1] if quick else [1, 2]):
         for cls in (PLAIN, ORDERED, DEFAULT):
@@ -988,6 +1095,26 @@ def gen(tier, rng):
         yield ('multi_random_histories', 3, random_multi_history(rng, 25))
     for _ in range(200 if quick else 1500):
         yield ('multiset_random_histories', 4, random_multiset_history(rng, 25))
+    # (h) non-ASCII keys on which str.lower differs from casefold / from upper().lower(): every state over two
+    #     groups of spellings x a reduced set of operations with every key of the pool, 3 classes; the same for the set
+    uprobes = UNI_KEYS
+    for st in states(UNI_SPELL, [1]):
+        path = [[O_SET, k, v] for k, v in st]
+        for cls in (PLAIN, ORDERED, DEFAULT):
+            for k in UNI_KEYS:
+                for op in ([O_SET, k, 2], [O_GET, k], [O_DEL, k], [O_IN, k], [O_GETD, k, [NONE]], [O_POP, k, []], [O_POP, k, [7]], [O_SETDEFAULT, k, 3]):
+                    yield ('unicode_state_x_op', 1, [cls, 0, [], path + [op], uprobes, len(path)])
+            for op in ([O_LOWER], [O_POPITEM], [O_CLEAR], [O_UPDATE, [['MAß', 5], ['Σ', 6], ['σ', 7], ['K', 8]]]):
+                yield ('unicode_state_x_op', 1, [cls, 0, [], path + [op, [O_SET, 'MASS', 9], [O_DEL, 'maß']], uprobes, len(path)])
+                if cls != DEFAULT:
+                    yield ('unicode_state_x_op', 1, [cls, 0, [[k, v] for k, v in st], [op], uprobes, 0])
+        for k in UNI_KEYS:
+            for op in ([S_ADD, k], [S_DISCARD, k], [S_REMOVE, k], [S_CANON, k]):
+                yield ('unicode_set_state_x_op', 2, [[k_ for k_, _ in st], [op, [S_LOWER], [S_POP]], uprobes, 0])
+    yield ('unicode_multi', 3, [[[M_NEW, ORDERED, [['Maß', 1], ['Σ', 2], ['K', 3]]], [M_LOWER, 0], [M_COPY, 0, PLAIN], [M_OP, 1, [O_SET, 'MAß', 4]],
+                                 [M_OP, 0, [O_DEL, 'k']], [M_NEWDEFAULT, NONE], [M_UPDATEFROM, 3, 2], [M_OP, 3, [O_POP, 'ς', [NONE]]], [M_OP, 3, [O_POP, 'σ', [NONE]]]], uprobes, 0])
+    yield ('unicode_multi', 4, [[[SM_NEW, ['Maß', 'Σ', 'K']], [SM_LOWER, 0], [SM_COPY, 0], [SM_OP, 1, [S_ADD, 'MAß']], [SM_OP, 0, [S_DISCARD, 'k']],
+                                 [SM_NEW, ['ς']], [SM_IORFROM, 3, 0], [SM_OP, 3, [S_CANON, 'σ']]], uprobes, 0])
     # (e) random long histories with richer keys
     for _ in range(1500 if quick else 4000):
         yield ('random_histories', 1, random_dict_history(rng, 60))
@@ -999,6 +1126,11 @@ def gen(tier, rng):
         for k in edge_keys:
             for op in ([O_GET, k], [O_DEL, k], [O_POP, k, []], [O_POP, k, [3]], [O_GETD, k, []], [O_SETDEFAULT, k, 3], [O_POPITEM], [O_CLEAR]):
                 yield ('edge', 1, [cls, 4, [], [op, op, [O_SET, k.upper(), 1], op, op], edge_keys, 0])
+            # None and the other falsy values, as stored values and as EXPLICIT defaults
+            for f in FALSY:
+                for dfl in ([0, NONE] if cls == DEFAULT else [0]):
+                    yield ('falsy', 1, [cls, dfl, [], [[O_GETD, k, [f]], [O_POP, k, [f]], [O_SETDEFAULT, k, f], [O_GET, k], [O_GETD, k, [7]], [O_POP, k, [7]],
+                                                       [O_SET, k, f], [O_GETD, k, [7]], [O_SETDEFAULT, k, 7], [O_POP, k, []]], edge_keys, 0])
         for _ in range(60 if quick else 300):
             ks = [rng.choice(edge_keys) for _ in range(rng.randint(2, 6))]
             init = [] if cls == DEFAULT else [[k, i] for i, k in enumerate(ks)]
@@ -1049,11 +1181,15 @@ def extra_checks(ck, tier, rng):
             m = chr(cp + 32) if 65 <= cp <= 90 else c
             if c.lower() != m:
                 fails.append(('U+%04X' % cp, 'model to_lower=%r python=%r' % (m, c.lower()), False))
-    for c in RICH:
-        if ord(c) >= 128 and c.lower() != c:
-            fails.append((c, 'generator alphabet: non-ASCII character with a case mapping', False))
-        if repr(c) != "'" + c + "'":
-            fails.append((c, 'generator alphabet: repr is not the quoted character', False))
+    # the key pool of the streams: lower is idempotent on it (also on upper/lower variants, which the random
+    # generator derives), and repr() of a key parses back to the key
+    pool = set(UNI_KEYS) | set(RICH)
+    pool |= set(k.upper() for k in list(pool)) | set(k.lower() for k in list(pool))
+    for k in sorted(pool):
+        if k.lower().lower() != k.lower():
+            fails.append((k, 'key pool: str.lower is not idempotent on this key', False))
+        if ast.literal_eval(repr(k)) != k:
+            fails.append((k, 'key pool: repr() of the key does not parse back', False))
     yield {'name': 'lower_idempotent_sweep', 'evaluations': n, 'failures': fails[:5],
            'info': 'str.lower(str.lower(c)) == str.lower(c) for every code point; model case mapping == str.lower on ASCII'}
 
@@ -1075,7 +1211,7 @@ TRUSTED_BASE = ['modelled (not verified) code: pybtex/utils.py:80-379 (the four 
                 'repr() is compared as the data it prints (parsed back with ast.literal_eval), not as text']
 ASSUMPTIONS = ['lower is idempotent: lower (lower k) = lower k (hypothesis of the theorems; proved for the extracted ASCII instance; str.lower re-measured idempotent on every code point on every run)',
                'boolean key equality decides equality (proved for the extracted instance str_eqb)',
-               'correspondence domain: keys are ASCII strings plus caseless non-ASCII symbols; non-ASCII letters are outside the compared domain (the theorems are about an abstract key type and do not depend on it)',
+               'correspondence domain: keys are ASCII strings and strings with the non-ASCII characters of the pool (ß ς Σ σ ſ ﬁ İ Kelvin-K € ° →); for non-ASCII keys the extracted model uses the table key -> str.lower(key) that Python computes for the keys of the case (the theorems are about an abstract key type with an idempotent lower; idempotence on the pool is re-checked on every run)',
                'set iteration order (hash order) is unobservable: iterations of the set are compared sorted, and MutableSet.pop is modelled as "removes some element" (the element the implementation popped is passed to the model, which checks it is a member)']
 PARTIAL = ['no theorem is partial.  The reference map of the defaulting variant answers get(k, d) of an absent key with the factory default ("yields its default for absent keys"), as the code does (default_get_no_insert); the oracle accepts d as well',
            'repr is modelled, proved and compared as the data it prints, not as text; set iteration order, the element returned by set.pop() and the item returned by popitem() are not fixed by the oracle',
